@@ -17,8 +17,11 @@ intervals with an adaptive partition of the whole float line (sa/ival.py, sa/box
 
 Lines are where branch cuts, signed zeros, the |z| = 1 and safe_min/safe_max region boundaries and the overflow
 handling of the algorithms are exercised; the relational guards that defeat a two-dimensional analysis (DESIGN.md §3/C01)
-degenerate on them.  What is NOT decided: inputs off these lines; the 16-ULP / 3-ULP bounds (d is 2**-6, thorough
-2**-9); the functions/lines listed in UNDECIDED (compensated log kernels need point-wise resolution, exp(i*y) is periodic).
+degenerate on them.  The compensated logarithms (log, log2, log10, log1p in complex64) are decided by R1.1 since the interval
+evaluator encloses Veltkamp splits, Dekker product errors and 2Sum / Fast2Sum error terms by their contracts
+(sa/eft_terms.py) instead of following their cancellations.  What is NOT decided: inputs off these lines between the probes
+of R1.5; the 3-ULP bound (d is 2**-6, thorough 2**-9); what is listed in UNDECIDED (exp(i*y) is periodic; complex128 log1p
+next to |1 + z| = 1 needs correlated enclosures).
 """
 
 from __future__ import annotations
@@ -37,8 +40,13 @@ LD = np.longdouble
 CLD = np.clongdouble
 REL = "algorithms.py"
 
+def _ref_log1p(z):
+    from rules.C01_probe import ref_log1p
+    return ref_log1p(z)
+
+
 ORACLE = dict(absolute=np.abs, acos=np.arccos, acosh=np.arccosh, asin=np.arcsin, asinh=np.arcsinh, atan=np.arctan, atanh=np.arctanh, exp=np.exp,
-              log=np.log, log2=np.log2, log10=np.log10, log1p=np.log1p, sqrt=np.sqrt, square=lambda z: z * z)
+              log=np.log, log2=np.log2, log10=np.log10, log1p=_ref_log1p, sqrt=np.sqrt, square=lambda z: z * z)
 LINES = {
     "real axis y=+0": ("axis", "y", 0.0), "real axis y=-0": ("axis", "y", -0.0),
     "imaginary axis x=+0": ("axis", "x", 0.0), "imaginary axis x=-0": ("axis", "x", -0.0),
@@ -60,12 +68,18 @@ EVERY = AXES_DIAGS | RAYS | SHIFTED
 DECIDED = {
     "absolute": EVERY, "square": EVERY, "sqrt": EVERY, "atan": EVERY, "atanh": EVERY, "asin": EVERY, "acos": EVERY, "asinh": EVERY, "acosh": EVERY,
     "exp": {"real axis y=+0", "real axis y=-0"},
+    # the compensated logarithms: decidable since the interval evaluator encloses the error-free transformations by contract (sa/eft_terms.py)
+    "log": EVERY, "log2": EVERY, "log10": EVERY, "log1p": EVERY,
 }
+# log1p in complex128: next to the circle |1 + z| = 1 the sum 2x + x*x + y*y cancels to ~(1+x)**2 and plain intervals (no correlation
+# between the occurrences of x) need ~1e9 boxes
+DECIDED_TYPES = {"log1p": ("complex64",)}
+# R1.2 (forward error analysis) is not applicable to compensated arithmetic: its error terms are the computation
+NO_ERR = {"log", "log1p", "log2", "log10"}
 QUICK_RAYS = {k for k in RAYS if any(k.endswith(f"2**{e}*x") for e in (-8, -1, 1, 8))}
 UNDECIDED = {
-    "log": "the |z| ~ 1 branch is a compensated (Dekker/2Sum) evaluation of x*x + y*y - 1 whose cancellation interval arithmetic cannot follow on boxes wider than a point",
-    "log1p": "same compensated kernel; numpy's complex log1p reference is itself inaccurate for tiny arguments",
-    "log2": "built on log", "log10": "built on log",
+    "log, log2, log10, log1p (R1.2, R1.3)": "forward error analysis does not apply to the compensated (Dekker/2Sum) kernels; they are decided by R1.1 (value enclosure with the error-free transformations summarised by their contracts), R1.4 and R1.5",
+    "log1p[complex128] (R1.1)": "next to the circle |1 + z| = 1 the cancellation of 2x + x*x + y*y needs correlated (affine) enclosures; decided by R1.5 only",
     "exp (off the real axis)": "cos/sin of arguments beyond 2**24 change sign between adjacent floats: no box wider than a point is decidable",
 }
 DELTA = {"quick": 2.0 ** -6, "thorough": 2.0 ** -9}
@@ -116,7 +130,7 @@ def line_terms(fa, name, ctype, line):
     return tre, tim, ("x" if spec[1] == "y" else "y")
 
 
-def make_judge(name, line, tre, tim, var, fmt, dom, delta):
+def make_judge(name, line, tre, tim, var, fmt, dom, delta, exempt=None):
     spec = LINES[line]
     f = ORACLE[name]
     L = LD(fmt.largest)
@@ -165,6 +179,7 @@ def make_judge(name, line, tre, tim, var, fmt, dom, delta):
         proved = np.ones(shp, bool)
         refuted = np.zeros(shp, bool)
         info = []
+        ex_mask = exempt(l[:, 0], h[:, 0]) if exempt is not None else None
         for ci, V in enumerate((R, Im)):
             if V is None:
                 continue
@@ -198,6 +213,9 @@ def make_judge(name, line, tre, tim, var, fmt, dom, delta):
             proved &= okc
             refuted |= dis
             info.append((ci, rlo, rhi, rn, re_, first))
+        if ex_mask is not None:
+            proved = proved | ex_mask
+            refuted = refuted & ~ex_mask
 
         def describe(i):
             out = f"{var} in [{float(lo[i]).hex()}, {float(hi[i]).hex()}] = [{float(lo[i])!r}, {float(hi[i])!r}] on the {line}:"
@@ -344,16 +362,34 @@ def _analyse(root, ctype, name, line, tier):
     res = dict(refuted=[], ok=None, error=None, stats=dict(boxes=0, proved=0, points=0, levels=0), regions={}, err_refuted=[], err_ok=None, err_error=None)
     try:
         tre, tim, var = line_terms(fa, name, ctype, line)
-        judge = make_judge(name, line, tre, tim, var, fmt, dom, DELTA[tier])
+        exempt = None
+        if name in NO_ERR:
+            # where the larger component squared is within 2**-8 of the largest float the Dekker parts of the compensated sum may
+            # overflow on one side of a box only (inf - inf): the guard |s| < 0.5 is false on every point there but undecidable on
+            # boxes; that band (2**-9 wide in the parameter) is judged by R1.5
+            spec_ = LINES[line]
+            k_ = max(1.0, abs(spec_[1])) if spec_[0] == "ray" else 1.0
+            root = float(np.sqrt(np.float64(fmt.largest)))
+            z_lo, z_hi = int(fmt.to_ord(fmt.ft(root * (1 - 2.0 ** -9) / k_))), int(fmt.to_ord(fmt.ft(min(root * (1 + 2.0 ** -9) / k_, float(fmt.largest)))))
+
+            def exempt(l_, h_):
+                pos = (l_ >= z_lo) & (h_ <= z_hi)
+                neg = (l_ >= -z_hi - 1) & (h_ <= -z_lo - 1)
+                return pos | neg
+
+        judge = make_judge(name, line, tre, tim, var, fmt, dom, DELTA[tier], exempt)
         lo0, hi0 = initial_boxes(fmt)
         sub_lo, sub_hi = -int(fmt.to_ord(fmt.smallest)), int(fmt.to_ord(fmt.smallest)) - 1
         sq = fmt.ft(np.sqrt(np.float64(fmt.smallest)))
         pole_lo, pole_hi = -int(fmt.to_ord(sq)) - 1, int(fmt.to_ord(sq))
         near_pole = (name == "atanh" and line in ("line x=1", "line x=-1")) or (name == "atan" and line in ("line y=1", "line y=-1"))
+        near_m1 = name == "log1p" and line == "line x=-1"
 
         def known_region(lo_, hi_):
             if near_pole and pole_lo <= lo_[0] and hi_[0] <= pole_hi:
                 return "next to the pole, where the square of the offset underflows"
+            if near_m1 and pole_lo <= lo_[0] and hi_[0] <= pole_hi:
+                return "next to the branch point -1, where the square of the imaginary part underflows"
             if sub_lo <= lo_[0] and hi_[0] <= sub_hi:
                 return "subnormal inputs"
             return None
@@ -372,6 +408,8 @@ def _analyse(root, ctype, name, line, tier):
             return res
         res["ok"] = f"{out.proved} boxes ({out.proved_points} single points) proved, {out.levels} refinement levels, bound 2**{int(np.log2(DELTA[tier]))}"
         res["stats"] = dict(boxes=out.evaluated, proved=out.proved, points=out.proved_points, levels=out.levels)
+        if name in NO_ERR:
+            return res
         # R1.2 forward error analysis (the named regions are reported by R1.1 and skipped here)
         counters = dict(points_checked=0)
         # the first-order error model is relative: it does not apply where a component of the input is subnormal (on a ray
@@ -590,7 +628,7 @@ def run(repo, tier):
         if not repo.has(REL, name):
             raise AnalysisError(f"anchor vanished: algorithms.{name}")
     tasks = [(repo.root, ctype, name, line, tier) for ctype in ("complex64", "complex128") for name in DECIDED for line in sorted(DECIDED[name])
-             if tier == "thorough" or line not in RAYS or line in QUICK_RAYS]
+             if (tier == "thorough" or line not in RAYS or line in QUICK_RAYS) and ctype in DECIDED_TYPES.get(name, ("complex64", "complex128"))]
     jobs = int(os.environ.get("VERIF_JOBS", "0") or 0) or min(len(tasks), os.cpu_count() or 1)
     ptasks = [(repo.root, ctype, name, tier) for ctype in ("complex64", "complex128") for name in PLANE if tier == "thorough" or name in PLANE_QUICK]
     for name in PROBED:
